@@ -151,6 +151,10 @@ func main() {
 			fmt.Printf("selftest %s: variants=%d killed=%d survived=%v equivalents=%d silent=%d noisy=%v\n", id, st.Variants, st.Killed, st.Survived, st.Equivalent, st.Silent, st.Noisy)
 			for _, s := range st.Skipped {
 				fmt.Println("  skipped:", s)
+				// a variant of the corpus that can no longer be built is a stale corpus, not a pass
+				if strings.Contains(s, "patch does not apply") || strings.Contains(s, "file missing") || strings.Contains(s, "patch missing") {
+					rc = 3
+				}
 			}
 			if len(st.Survived) > 0 || len(st.Noisy) > 0 {
 				rc = 3
